@@ -120,6 +120,7 @@ func (g *fgen) callInner(in ssa.CallInstruction, st *state) []val {
 		pl *loc
 	}
 	var linked []viaPtr
+	whole := map[*loc]bool{} // the pointer denotes the object itself: the callee's frame covers it
 	for i, a := range c.Args {
 		l, ok := g.locs[a]
 		if !ok || len(l.sub) > 0 || l.root == rootGlobal {
@@ -135,6 +136,7 @@ func (g *fgen) callInner(in ssa.CallInstruction, st *state) []val {
 		}
 		pl := g.ptrLoc(args[i].t, l.typ)
 		if pl.root == l.root && pl.rootT == l.rootT && len(pl.path) == len(l.path) && pl.base == l.base {
+			whole[l] = true
 			continue
 		}
 		g.store(st, pl, g.load(st, l))
@@ -147,7 +149,7 @@ func (g *fgen) callInner(in ssa.CallInstruction, st *state) []val {
 			done[vp.l] = true
 		}
 		for _, l := range escaping {
-			if done[l] {
+			if done[l] || whole[l] {
 				continue
 			}
 			var keys []string
@@ -290,6 +292,7 @@ func (g *fgen) applyContract(fc *funcContract, callee *ssa.Function, recv *val, 
 		g.obls[len(g.obls)-1].src = ckey + " panics-if " + c.src
 	}
 	// frame
+	nHavocs := len(g.fullHavocs)
 	if fc.hasMod {
 		ms := newModset()
 		g.w.declMods(g, fc, ms)
@@ -311,6 +314,9 @@ func (g *fgen) applyContract(fc *funcContract, callee *ssa.Function, recv *val, 
 	} else {
 		g.havocAll(st)
 		g.assum["contract "+ckey+" has no modifies clause and no body (havoc all)"] = true
+	}
+	if fc.modIf != nil {
+		g.applyModIf(fc, env, pre, st, nHavocs, ckey)
 	}
 	for _, name := range fc.ghostWrites {
 		if k, gv := g.ghostKey(name); gv != nil {
@@ -337,7 +343,19 @@ func (g *fgen) applyContract(fc *funcContract, callee *ssa.Function, recv *val, 
 	for _, c := range fc.ensures {
 		t, err := post.safeBool(c)
 		if err != nil {
+			if fc.trusted && (callee == nil || callee.Blocks == nil || g.w.isLibrary(callee)) && strings.Contains(err.Error(), "unknown") {
+				// a trusted library clause that names types of a package not loaded for
+				// this property: dropping an assumed clause is sound
+				g.assum["trusted clause of "+ckey+" not resolvable here and dropped: "+c.src] = true
+				continue
+			}
 			panic(transErr(err.Error()))
+		}
+		if g.noteQuant(post, c, g.curGuard, true) > 0 && g.multiVarForall(c) {
+			// the contract of the function under verification names witnesses and the
+			// clause has been instantiated at them: the multi-variable quantified form
+			// itself is not asserted (it only feeds matching loops)
+			continue
 		}
 		g.fact(g.curGuard, t)
 	}
@@ -614,4 +632,47 @@ func (g *fgen) copyBuiltin(c *ssa.CallCommon, args []val, st *state) []val {
 	g.fact("true", fmt.Sprintf("(= %s (ite (= %s 0) %s (store %s (s_arr %s) %s)))", nh, n, h, h, d.t, na))
 	st.heap[k] = nh
 	return []val{{n, tInt, "Int"}}
+}
+
+// modIfKeys: the heap keys named by the items of a conditional frame.
+func (g *fgen) modIfKeys(fc *funcContract) map[string]bool {
+	out := map[string]bool{}
+	for _, item := range fc.modIf.items {
+		keys, err := g.modKeys(fc, item)
+		if err != nil {
+			panic(transErr(fmt.Sprintf("%s: modifies-if item %s: %v", fc.where, item, err)))
+		}
+		for k, me := range keys {
+			me.register(g, k)
+			out[k] = true
+		}
+	}
+	return out
+}
+
+// applyModIf: the callee's frame was unbounded (the heap has just been havocked); under
+// the conditional frame's condition every key but the listed ones keeps its pre-state
+// value (epoch inheritance guarded by the condition).
+func (g *fgen) applyModIf(fc *funcContract, env *cenv, pre, st *state, nHavocs int, ckey string) {
+	if len(g.fullHavocs) == nHavocs {
+		return // the unconditional frame was bounded: nothing to refine
+	}
+	ct, err := env.safeBool(fc.modIf.cond)
+	if err != nil {
+		if fc.trusted && strings.Contains(err.Error(), "unknown") {
+			g.assum["conditional frame of "+ckey+" not resolvable here and ignored"] = true
+			return
+		}
+		panic(transErr(err.Error()))
+	}
+	except := g.modIfKeys(fc)
+	ev := g.fullHavocs[len(g.fullHavocs)-1]
+	ev.cond, ev.except, ev.who = ct, except, ckey
+	kept := st.heap // keys re-established after the havoc (ghosts kept by havocHeap)
+	st.heap = map[string]string{}
+	for k, v := range kept {
+		st.heap[k] = v
+	}
+	st.epoch = g.newEpoch([]epochPred{{guard: ct, st: pre}})
+	g.epochs[st.epoch].except = func(k string) bool { return except[k] }
 }
